@@ -207,6 +207,14 @@ def main(tier, seed):
                 {"positive_costs": True, "zero_shunting": True}, {"ntypes": 1},
                 {"ntypes": 1, "zero_costs": True, "depots": "ample"}, {"zero_costs": True, "depots": "absent"}]
     insts = lib.load_corpus(PID) + [instgen.gen_instance(rng, rng.choice(profiles)) for _ in range(n)]
+    # several types competing for many-track slots, with maximal distances that service distances are exact multiples of
+    # (the f32 counter landing exactly on 1.0: seeded C14j); own random stream
+    from . import cone
+    srng = random.Random(seed * 131 + 14)
+    for _ in range(40 if tier == "quick" else 1500):
+        pr = cone.slot_profile(srng)
+        pr["positive_costs"] = True
+        insts.append(instgen.gen_instance(srng, pr))
     results = lib.pmap(run_one, [(d, k, inst) for k, inst in enumerate(insts)])
     return solvefam.conclude(PID, tier, seed, t0, proof, results,
                              "flow network, flow and decoded tours recorded in solve_for_vehicle_type (hook) vs the model's "
